@@ -60,6 +60,7 @@ def run_shard(spec):
     sigs, viol, samples, notes = set(), [], [], []
     simulated, not_simulated, best, best_run = set(), {}, {}, {}
     common_centre_needed = set()
+    smooth_needed = set()
     entries = ET.EXAMPLES
     work = []
     if "replay" in spec:
@@ -105,6 +106,8 @@ def run_shard(spec):
                 with warnings.catch_warnings():
                     warnings.simplefilter("ignore")
                     adv = {"common_centre": True} if (hash(ds) % 4 == 0 or name in common_centre_needed) else None
+                    if name in smooth_needed:
+                        adv = dict(adv or {}, smooth_only=True)
                     try:
                         r = numeric.run_numeric(e["module"], e["func"], kw, ms, ds, dim, adversary=adv)
                     except numeric.InvalidRun:
@@ -115,6 +118,8 @@ def run_shard(spec):
                             raise
             except numeric.Unsupported as ex:
                 probe_err = str(ex)[:80]
+                if "non-smooth" in str(ex):
+                    smooth_needed.add(name)
                 counters["unsupported_runs"] = counters.get("unsupported_runs", 0) + 1
                 continue
             except numeric.InvalidRun:
